@@ -14,6 +14,7 @@ import (
 )
 
 var values = []int64{-1<<31 - 1, -1 << 31, -1<<31 + 1, -5, -1, 0, 1, 5, 1<<31 - 2, 1<<31 - 1, 1 << 31, 1<<32 - 2, 1<<32 - 1, 1 << 32}
+
 // the empty name is an ordinary key for Set/SetNext (whose uniqueness guarantees do not
 // depend on what the names look like); RFC 7950 forbids it in a schema, so sequences
 // containing it are driven through the API only
@@ -50,7 +51,9 @@ func CheckAPI(seq []exact.Member, bits bool) (class, detail string, facts map[st
 	} else {
 		e = yang.NewEnumType()
 	}
-	want, invalidAt, reason := exact.Assign(seq, bits)
+	// A rejected call assigns nothing: the members accepted so far stay as they are, and
+	// what comes after is judged as if the rejected member had not been written.
+	var accepted []exact.Member
 	runningMax := int64(0)
 	have := false
 	for i, m := range seq {
@@ -60,24 +63,28 @@ func CheckAPI(seq []exact.Member, bits bool) (class, detail string, facts map[st
 		} else {
 			err = e.SetNext(m.Name)
 		}
-		facts = map[string]any{"bits": bits, "implicit": !m.Explicit, "have_earlier": have, "running_max": runningMax}
-		if i == invalidAt {
+		facts = map[string]any{"bits": bits, "implicit": !m.Explicit, "have_earlier": have, "running_max": runningMax, "after_a_rejected_member": len(accepted) < i}
+		want, invalidAt, reason := exact.Assign(append(append([]exact.Member{}, accepted...), m), bits)
+		if invalidAt >= 0 {
 			if err == nil {
 				return "accepts-invalid", fmt.Sprintf("member %d of [%s] accepted, reference: %s", i, seqString(seq), reason), facts
 			}
-			return "", "", nil // behaviour after an error is unspecified
+			continue
 		}
 		if err != nil {
 			return "rejects-valid", fmt.Sprintf("member %d of [%s]: %v", i, seqString(seq), err), facts
 		}
-		if got := e.Value(m.Name); got != want[i] || !e.IsDefined(m.Name) {
-			return "value", fmt.Sprintf("member %d of [%s] = %d, RFC value %d", i, seqString(seq), got, want[i]), facts
+		w := want[len(want)-1]
+		if got := e.Value(m.Name); got != w || !e.IsDefined(m.Name) {
+			return "value", fmt.Sprintf("member %d of [%s] = %d, RFC value %d", i, seqString(seq), got, w), facts
 		}
-		if !have || want[i] > runningMax {
-			runningMax = want[i]
+		accepted = append(accepted, m)
+		if !have || w > runningMax {
+			runningMax = w
 		}
 		have = true
 	}
+	seq = accepted
 	nm := e.NameMap()
 	if len(nm) != len(seq) {
 		return "name-map", fmt.Sprintf("[%s]: NameMap has %d entries", seqString(seq), len(nm)), nil
@@ -220,6 +227,28 @@ func Literal(j *job.Job, s *job.Sink) {
 	}
 	for d := int64(-9); d <= 9; d++ {
 		lits = append(lits, big.NewInt(d))
+	}
+	// arguments that are no number at all (an empty one must not be read as "no value given")
+	for _, junk := range []string{"", " ", "abc", "1 2", "--1", "1.5", "0..1"} {
+		for _, bits := range []bool{false, true} {
+			kw, vk := "enum", "value"
+			if bits {
+				kw, vk = "bit", "position"
+			}
+			text := fmt.Sprintf("module m { namespace \"urn:m\"; prefix m; leaf l { type %s { %s a { %s 7; } %s b { %s %q; } %s c; } } }", map[bool]string{false: "enumeration", true: "bits"}[bits], kw, vk, kw, vk, junk, kw)
+			if j.Shard != 0 {
+				continue
+			}
+			s.Count("literal_cases", 1)
+			s.Count("nontrivial", 1)
+			ms := yang.NewModules()
+			if err := ms.Parse(text, "m.yang"); err != nil {
+				continue // rejected even earlier
+			}
+			if errs := ms.Process(); len(errs) == 0 {
+				s.Violation(0, j.CaseID(0), "C14.literal", "accepts-non-numeric", fmt.Sprintf("%s %q of b was accepted: %s", vk, junk, text), map[string]any{"text": text}, nil)
+			}
+		}
 	}
 	pres := [][]exact.Member{nil, {{Name: "a"}}, {{Name: "a", Explicit: true, Value: 5}}, {{Name: "a", Explicit: true, Value: -3}}}
 	var idx int64
